@@ -33,6 +33,11 @@ def find_cashflow_method(prog):
             continue
         if block_addterm_nodes(f.node, 'F'):
             out.append(f)
+    if len(out) > 1:
+        # a foreign writer of F is C06.W's business; the primitive is the one that also maintains INC on the base class
+        pref = [f for f in out if block_addterm_nodes(f.node, 'INC') and f.cls.name == 'Sector']
+        if len(pref) == 1:
+            out = pref
     if len(out) != 1:
         raise AnalysisError('expected one cash-flow method (AddTerm on EquationBlock[\'F\']), found %s' % [f.qualname for f in out])
     return out[0]
